@@ -29,9 +29,21 @@ MANIFEST_TEXT = ("Lean 4 theorems, for every process count P, every decompositio
                  "sync_numbering_irrelevant, so neither the rank order of fixed-order processing nor the map order of the "
                  "neighbours nor the pair order inside a message matter); a sync on a sub-communicator is the sync of its "
                  "processes alone: processes that know nobody and are listed by nobody neither contribute nor change "
-                 "(sync_subcommunicator).  Each run executes the real IndicesSyncer (default "
+                 "(sync_subcommunicator).  Round four: three more parts of indicessyncer.hh are regenerated from the source on "
+                 "every run and tied to the model by theorems - the statement order of sync(numberer, useFixedOrder) "
+                 "(sizes before packing; packing and receiving two complete loops over all old neighbours, the first "
+                 "finished before the second starts; receives inside one resize; repairLocalIndexPointers after endResize and "
+                 "before globalMap_ is emptied; every per-sync member emptied so that histories on one object are "
+                 "compositions of sync; sequence numbers taken from the index set: sync_phases_sound), the five branch "
+                 "conditions of insertIntoRemoteIndexList (the control-flow skeleton checked by the translator with the "
+                 "regenerated conditions is the model's insertEntry on every list: insert_conditions_tied) and the "
+                 "increments of the counting loop of calculateMessageSizes (for every partial view, process and "
+                 "destination the counters equal the number of indices and pairs of the message the model lets packAndSend "
+                 "write, so the reserved buffer fits the real message: sizes_match_messages, wire_message_fits).  "
+                 "Each run executes the real IndicesSyncer (default "
                  "numberer, pure user numberer, counting and slot-recycling numberer objects; fixed and arrival order; deletion through RemoteIndexListModifier or "
-                 "SLList iterators; a second delete-and-sync or sync-again round in 40 % of the cases; remote indices living on "
+                 "SLList iterators; a second delete-and-sync (with a new syncer object or - round four - with the object of the first "
+                 "round) or sync-again round in 40 % of the cases; arrival order through the one-argument call sync(numberer); remote indices living on "
                  "MPI_COMM_WORLD, on a duplicate, on a communicator that renumbers all processes or on a renumbered proper "
                  "sub-communicator while the remaining processes sync on their own communicator; global indices of type int "
                  "or long with values beyond 32 bits) under mpirun -np 1..4 "
@@ -41,7 +53,11 @@ MANIFEST_TEXT = ("Lean 4 theorems, for every process count P, every decompositio
 MANIFEST_NOTE = ("Trusted: Lean kernel (+propext/Classical.choice/Quot.sound), the hand-written protocol model's fidelity "
                  "(differential runs only, bounded: P<=6, <=14 globals, <=2 rounds), harness oracle, g++/ASan/UBSan, OpenMPI "
                  "(reliable, pairwise FIFO; the bytes MPI_Pack produces are not modelled, only the sequence of field types, read "
-                 "from the source by tools/translators/tr_c13.py).  The SLList "
+                 "from the source by tools/translators/tr_c13.py; the same translator reads the statement order of sync, the "
+                 "branch conditions of insertIntoRemoteIndexList and the counter increments of calculateMessageSizes, checking "
+                 "the surrounding statement skeleton syntactically - a source outside that grammar is a broken obligation; "
+                 "syncPhasesOK, the skeleton insertEntryG and the loop calcInfo into which the regenerated data are plugged are "
+                 "hand-written and tied to the code by the differential runs like the rest of the model).  The SLList "
                  "iterator bookkeeping of the syncer (Iterators, resetIteratorsMap, checkReset) and the pointer representation "
                  "of remote indices are covered by the runs + ASan only; the model keeps references as (global, attribute) "
                  "keys, as the code does during sync.  The model has one numbering of the processes (that of the communicator of "
@@ -80,13 +96,15 @@ RULE = ("cases: rank 0 draws the communicator the remote indices live on (30 % M
         "indices so that re-announcements arrive in descending order across messages; in 40 % of the cases a second round follows without any synchronisation in between (sync again, or delete "
         "the same copies again and sync); every rank enters each sync after a seeded delay of 0..1 ms so that arrival orders "
         "vary and fast ranks overtake slow ones.  The state of every rank is compared before the first sync, after it and "
-        "after the second.  distinct = distinct op lines; non-trivial = at least one process had a non-empty remote index "
+        "after the second.  Round four: re=e deletes the same copies again and syncs with the IndicesSyncer object of the "
+        "first round (3/20 re=s, 3/20 re=d, 2/20 re=e); arrival order with a user numberer uses sync(numberer) without the flag.  distinct = distinct op lines; non-trivial = at least one process had a non-empty remote index "
         "list before the sync")
 ASSUMPTIONS = [
     "the Lean model lean/DuneVerif/Model/C13.lean is hand-written (protocol level); its fidelity to indicessyncer.hh rests on this differential run (P <= 6, <= 2 rounds)",
     "MPI is trusted: reliable, pairwise FIFO; of the wire format only the sequence of field types is modelled (regenerated from the source by tr_c13.py: MPI_Pack_size/MPI_Pack/MPI_Unpack calls with their loop nesting); the bytes are exercised only",
+    "round four: tr_c13.py also regenerates the statement order of sync(numberer, useFixedOrder) (phase calls, member clears, sequence number assignments with loop number and if-guard; the two loop headers), the five branch conditions of insertIntoRemoteIndexList (statement skeleton checked syntactically) and the increments of the counting loop of calculateMessageSizes; the predicates/skeletons they are plugged into (syncPhasesOK, insertEntryG, calcInfo in Model/C13.lean) are hand-written; calculateMessageSizes finds the holders with a CollectiveIterator (global index and attribute), the model with `holders` (global index) - the same under the hypothesis of one copy per index set",
     "the consistent initial state is defined in the model directly from the decomposition by the specification of RemoteIndices::rebuild (C04 proves that rebuild meets it); the harness uses the real rebuild and compares the state before the sync with the model as well",
-    "every global index occurs at most once per index set (hypothesis shared by C04/C05/C13, DESIGN.md section 5 C04; seeded change C13_w2m3 needs an index held twice by one process and is therefore outside the property: design_notes/C13.md); all beliefs agree with one decomposition; the neighbour relation is symmetric",
+    "every global index occurs at most once per index set (hypothesis shared by C04/C05/C13, DESIGN.md section 5 C04; seeded change C13_w2m3 needs an index held twice by one process, so no input of the property's domain shows it; since round four it is reported as a broken tie - the scan of insertIntoRemoteIndexList leaves the translator's grammar - without a failing input: design_notes/C13.md); all beliefs agree with one decomposition; the neighbour relation is symmetric",
     "communicator and global index type are configurations of the real code only (the model numbers processes as the communicator does and has integer global indices): covered by the differential runs and the oracle on renumbered/sub-communicators and long global indices; sync_numbering_irrelevant / sync_subcommunicator prove that the model's result does not depend on the numbering and that processes outside the communicator do not take part",
     "a case is given 30 s (a message sent to the wrong process or communicator is never received and ends in the per-case alarm = crash at that op line)",
     "arrival orders are varied by seeded start delays (after fixes/C13_syncer_arrival_order_mixes_syncs.patch the syncer no longer probes MPI_ANY_SOURCE, so the PMPI scheduler has nothing to permute); order independence for all orders is the theorem order_irrelevant",
